@@ -76,7 +76,8 @@ def directed(ctx, tla, quick):
     ctx.cov["traces_validated_against_impl"] += total
     ctx.cov["distinct_nontrivial"] += runs
     ctx.notes.append("direction A: %d runs = every complete behaviour of Publisher.tla (2%s subscriptions, up to 2-3 list changes anywhere between the snapshot and the return), "
-                     "each forced on the real publisher with the changes made by another goroutine and again from inside the callbacks (every third also through Map); %d recorded "
+                     "each forced on the real publisher with the changes made by another goroutine and again from inside the callbacks (every third also through Map) and once "
+                     "with SubscribeOn(handler) (every delivery must then run on the handler's goroutine); %d recorded "
                      "steps replayed through Publisher.tla's actions (each delivery = arrays[snap.arr][idx], list after the call = the model's slice); the in-place variant "
                      "of the model rejects the same steps" % (runs, ", 3" if quick else ", 3, 4", total))
 
